@@ -93,9 +93,10 @@ def run(chk):
     from . import c06
     chk.borrow(c06.r4, {"C06.R4": "C03.R6"})
     chk.obs = [o for o in chk.obs if not (o.rule == "C03.R6" and o.key not in ("aligned-pairs", "style-threshold-filter"))]
+    c06.data_as_built(chk, "C03.R6")  # ... and reach the test as they were built
     # ... with the margin v recomputed from the CVRs handed in, for every assertion, before it is used (C06.R1)
     chk.borrow(c06.r1, {"C06.R1": "C03.R6"})
-    chk.obs = [o for o in chk.obs if not (o.rule == "C03.R6" and o.key not in ("aligned-pairs", "style-threshold-filter", "margin-set-before-read"))]
+    chk.obs = [o for o in chk.obs if not (o.rule == "C03.R6" and o.key not in ("aligned-pairs", "style-threshold-filter", "margin-set-before-read", "data-returned-as-built"))]
 
 
 
